@@ -465,11 +465,11 @@ def run_property(pid, tier, seed):
                     raise Undecided("the rsbdd binary does not build from this tree (needed for the bounded CLI stand-in): " + cerr[-300:])
                 standins.append({"mode": mode, "label": "bounded - not counted as proved", "budget": budget, "seed": seed, "cases_checked": checked,
                                  "reports_only": R.ASPECTS.get(pid) if mode == "clitable" else None,
-                                 "bound": ("real binary over 45 formula texts (valid, malformed, extreme) x 17 option sets, 9 ordering files, 3 input channels, invalid UTF-8, plus seeded random combinations; requirement: no panic"
+                                 "bound": ("real binary over 51 formula texts (valid, malformed, extreme) x 17 option sets, 9 ordering files, 3 input channels, invalid UTF-8, plus seeded random combinations; requirement: no panic"
                                            if mode == "cli" else
                                            "real binary, 40+ formulas x {-m -t, -m -t -f true, -m -v}: exactly one satisfying row / listed model for a satisfiable formula, none otherwise, and every assignment it covers satisfies the formula"
                                            if mode == "climodel" else
-                                           "real binary, 36 formulas (incl. bound-before-free names, shadowing, fixed points, extreme constants) x {-t, -t -f true/false/any, -v} against the replay crate's independent evaluator: columns = the free variables in variable order; disjoint rows with the right result on every covered assignment; coverage = all / satisfying / falsifying assignments per filter; -v = exactly the satisfying assignments over free names; identical table / listing through --evaluate, file and stdin, for -b 2/3/5 and for the 12 filter spellings"
+                                           "real binary, 36 formulas (incl. bound-before-free names, shadowing, fixed points, extreme constants) x {-t, -t -f true/false/any, -v} against the replay crate's independent evaluator: columns = the free variables in variable order; disjoint rows with the right result on every covered assignment; coverage = all / satisfying / falsifying assignments per filter; -v = exactly the satisfying assignments over free names; identical table / listing through --evaluate, file and stdin, for -b 1/2/3/5 and for the 12 filter spellings"
                                            if mode == "clitable" else
                                            "real binary, 14 formulas x 14 ordering files (permutations, subsets, supersets with unused names, duplicates, punctuation, comments, primed names): same satisfying assignments of the same names as the default order; listed variables in file order; -r export fed back with -o reproduces the identical table"),
                                  "failing_input": foundin})
